@@ -137,7 +137,34 @@ func c15Scalar(r *rand.Rand) *jnode {
 	return n
 }
 
+// c15Days: times on the same and on neighbouring days around every calendar edge, also before year 1
+// and in zones that move the date; written one after the other they exercise whatever an outputter
+// remembers between two Time calls
+var c15Days = func() []time.Time {
+	var out []time.Time
+	for _, base := range []time.Time{{}, time.Date(0, 6, 14, 12, 0, 0, 0, time.UTC), time.Date(-1, 12, 31, 23, 0, 0, 0, time.UTC), time.Unix(0, 0).UTC(), time.Date(1970, 1, 1, 0, 0, 0, 0, time.UTC),
+		time.Date(2000, 2, 28, 23, 59, 59, 999999999, time.UTC), time.Date(9999, 12, 31, 0, 0, 0, 0, time.UTC), time.Date(1, 1, 1, 0, 0, 0, 0, time.FixedZone("e", 14*3600)), time.Date(0, 12, 31, 0, 0, 0, 0, time.FixedZone("w", -12*3600))} {
+		for _, d := range []time.Duration{-48 * time.Hour, -25 * time.Hour, -24 * time.Hour, -12 * time.Hour, -time.Hour, -time.Nanosecond, 0, time.Nanosecond, time.Hour, 12 * time.Hour, 24 * time.Hour, 36 * time.Hour} {
+			// RFC 3339 has four-digit years: 0000 to 9999
+			if t := base.Add(d); t.Year() >= 0 && t.Year() <= 9999 && t.UTC().Year() >= 0 && t.UTC().Year() <= 9999 {
+				out = append(out, t)
+			}
+		}
+	}
+	return out
+}()
+
 func c15Tree(r *rand.Rand, depth, width int) *jnode {
+	if depth > 0 && r.IntN(25) == 0 {
+		// an array of times of neighbouring days
+		n := &jnode{kind: jkArray, nodesN: 1}
+		at := r.IntN(len(c15Days))
+		for i := 2 + r.IntN(4); i > 0; i-- {
+			n.kids = append(n.kids, &jnode{kind: jkTime, t: c15Days[(at+r.IntN(5)+len(c15Days)-2)%len(c15Days)], nodesN: 1})
+			n.nodesN++
+		}
+		return n
+	}
 	k := r.IntN(10)
 	if depth <= 0 || k < 4 {
 		return c15Scalar(r)
